@@ -88,15 +88,18 @@ func verifH_C10_TTLKernel() {
 
 // around the kernel: Write computes E from the TTL, Read/Walk/ErrExpired agree on it.
 func verifC10Around(kind int) {
+	// TTLs up to 2^62 ns in magnitude: with the clock in [2^60,2^62) the expiry instant may lie before
+	// 1970 (negative), still without overflow
+	const bound = int64(1) << 62
 	cfgTTL := verifInt64("cfgTTL")
-	verifAssume(cfgTTL > -verifTTLBound && cfgTTL < verifTTLBound && cfgTTL != 0)
+	verifAssume(cfgTTL > -bound && cfgTTL < bound && cfgTTL != 0)
 	b := verifNewBackend(kind, Config{TimeToLive: time.Duration(cfgTTL), ExpirationJitter: -1})
 	clk := verifInstallClock(verifT0, verifT1, false)
 	ctx := context.Background()
 	ctxTTL := int64(0)
 	if verifBool("withCtxTTL") {
 		ctxTTL = verifInt64("ctxTTL")
-		verifAssume(ctxTTL > -verifTTLBound && ctxTTL < verifTTLBound)
+		verifAssume(ctxTTL > -bound && ctxTTL < bound)
 		ctx = WithTTL(ctx, time.Duration(ctxTTL), false)
 	}
 	key := []byte("k")
